@@ -153,6 +153,8 @@ type Interp struct {
 	depth    int
 	curFr    *frame
 	tmpDirs  int
+	wantClean   *int32
+	cleanReplay []ReplayRec
 	ghost    map[string]Value
 	speculating bool
 	merges   int
